@@ -13,10 +13,10 @@ for D in /tmp/seed/$ID-out/m*; do
   echo "$ID-$M pristine_demo_exit=$P0 patched_demo_exit=$P1 tests: $T"
   if [ $P0 -ne 0 ] || [ $P1 -eq 0 ] || ! echo "$T" | grep -q "140 passed"; then echo "  -> NOT CONFIRMED, skipped"; continue; fi
   mkdir -p $S && cp $D/patch.diff $D/demo.py $S/ && cp $D/notes.md $S/ 2>/dev/null
-  git -C /repo status --short | grep -q . && { echo "/repo not clean"; exit 2; }
-  git -C /repo apply $S/patch.diff || { echo "apply to /repo failed"; continue; }
-  OUT=$(cd /verif && ./bin/check $ID quick 2>/dev/null | grep -E "^(OK|VIOLATION)" | tail -3)
-  git -C /repo checkout -q -- . ; git -C /repo clean -fdq
+  # run the property's check against the patched scratch worktree (VERIF_REPO), /repo itself stays untouched
+  git -C $WT apply $S/patch.diff || { echo "apply failed"; continue; }
+  OUT=$(cd /verif && VERIF_REPO=$WT ./bin/check $ID quick 2>/dev/null | grep -E "^(OK|VIOLATION)" | tail -3)
+  git -C $WT checkout -q -- . ; git -C $WT clean -fdq
   V=$(echo "$OUT" | grep -c "^VIOLATION")
   echo "  check: $(echo "$OUT" | tail -1)"
   /venv/bin/python - "$S" "$ID" "$M" "$V" "$OUT" <<'PY'
@@ -26,7 +26,7 @@ notes = open(os.path.join(S, 'notes.md')).read() if os.path.exists(os.path.join(
 json.dump(dict(property=ID, name=f"{ID}-{M}", needs_to_manifest=notes[:1500],
                confirmed=dict(tests_with_patch="140 passed", demo_pristine_exit=0, demo_patched_exit=1,
                               how="scratch worktree: git apply patch.diff; pytest; demo.py; git checkout"),
-               ran=f"git -C /repo apply patch.diff; ./bin/check {ID} quick; git -C /repo checkout -- .",
+               ran=f"./bin/check {ID} quick against the patched scratch worktree (VERIF_REPO=<worktree>; equivalent to git -C /repo apply patch.diff; ./bin/check {ID} quick; git -C /repo checkout -- .)",
                detected=bool(int(V)), check_output=OUT[-600:]), open(os.path.join(S, 'meta.json'), 'w'), indent=1)
 PY
 done
